@@ -7,7 +7,7 @@
 //
 // Edits:
 //   - sync.Mutex / sync.RWMutex          -> rt.Mutex / rt.RWMutex      (all instrumented files)
-//   - os.WriteFile / os.ReadFile         -> rt.WriteFile / rt.ReadFile (cdr/cdrFile, internal/cgf)
+//   - os.WriteFile/ReadFile/OpenFile/Create/Open/Remove/Rename, os.File -> rt.* (cdr/cdrFile, internal/cgf, internal/sbi/processor)
 //   - rt.Yield(<site>) before statements                               (yield packages, when -yields)
 //
 // A construct that is not recognised is left untouched; a file that does not parse is
@@ -38,9 +38,13 @@ type edit struct {
 
 var (
 	lockDirs  = []string{"internal", "pkg", "cdr/cdrFile", "cdr/cdrConvert"}
-	fileDirs  = []string{"cdr/cdrFile", "internal/cgf"}
+	fileDirs  = []string{"cdr/cdrFile", "internal/cgf", "internal/sbi/processor"}
 	yieldDirs = []string{"internal/context", "internal/sbi/processor", "internal/abmf", "internal/rating", "internal/sbi"}
 )
+
+// the part of package os that the CDR file code may use; everything listed exists in rt
+var fileAPI = map[string]bool{"WriteFile": true, "ReadFile": true, "OpenFile": true, "Create": true, "Open": true,
+	"Remove": true, "Rename": true, "File": true}
 
 func under(rel string, dirs []string) bool {
 	for _, d := range dirs {
@@ -137,8 +141,7 @@ func main() {
 				edits = append(edits, edit{off(se.Pos()), off(se.End()), "rt." + se.Sel.Name, 0})
 				nLock++
 			}
-			if osName != "" && id.Name == osName && under(dir, fileDirs) &&
-				(se.Sel.Name == "WriteFile" || se.Sel.Name == "ReadFile") {
+			if osName != "" && id.Name == osName && under(dir, fileDirs) && fileAPI[se.Sel.Name] {
 				edits = append(edits, edit{off(se.Pos()), off(se.End()), "rt." + se.Sel.Name, 0})
 				nFile++
 			}
